@@ -73,6 +73,17 @@ def run_real(states, grid):
         idx = pd.DatetimeIndex([ts_of(b["t"]) for b in bars])
         act.broker.add_market(NullMarket(MarketInfo("minutely"), pd.DataFrame(index=idx, data={"v": range(len(idx))})))
         pidx, ppx = idx, [b["px"] for b in bars]
+    elif grid == 4:
+        # every minute is supplied; the run resamples to 15-minute bars (the bars of the behaviour are the 15-minute labels)
+        mins = list(range(bars[0]["t"], bars[-1]["t"] + 15))
+        idx = pd.DatetimeIndex([ts_of(t) for t in mins])
+        act.broker.add_market(NullMarket(MarketInfo("minutely"), pd.DataFrame(index=idx, data={"v": range(len(idx))})))
+        by_t = {b["t"]: b["px"] for b in bars}
+        pidx, ppx, last = idx, [], bars[0]["px"]
+        for t in mins:
+            last = by_t.get(t, last)
+            ppx.append(last)
+        act.interval = "15min"
     else:
         by_t = {b["t"]: b["px"] for b in bars}
         hours = list(range(bars[0]["t"], sentinel + 1, 60))
@@ -347,7 +358,7 @@ def run(chk: Check) -> int:
     replay_many(chk, behs, 1, notes)
     total += len(behs)
     # 2. simulated behaviours per grid (two / three trades, all configurations)
-    for grid in (1, 2, 3):
+    for grid in (1, 2, 3, 4):
         cfg = f"MC_Deribit_c16_g{grid}.cfg" if quick else f"MC_Deribit_c16_g{grid}_thorough.cfg"
         res, sb = tlc.simulate(SPEC, SPEC.parent / cfg, chk.tmp, num=320 if quick else 6000, depth=30, seed=chk.seed + grid,
                                workers=16, timeout=1500)
